@@ -3,6 +3,7 @@ package simrt
 import (
 	"sync"
 	"testing"
+	"time"
 )
 
 type inner struct {
@@ -106,4 +107,77 @@ func TestMapOrderStructKeys(t *testing.T) {
 			}
 		}
 	}
+}
+
+func TestRSchedParentHoldsLock(t *testing.T) {
+	Active = true
+	defer func() { Active = false }()
+	rs := NewRSched(nil)
+	var out []int
+	rs.AddTask(func() {
+		var wg sync.WaitGroup
+		var mu sync.Mutex
+		MutexLock(1, &mu)
+		for i := 0; i < 3; i++ {
+			WGAdd(2, &wg, 1)
+			i := i
+			Go(3, func() {
+				defer WGDone(4, &wg)
+				MutexLock(5, &mu)
+				out = append(out, i)
+				MutexUnlock(6, &mu)
+			})
+		}
+		MutexUnlock(7, &mu)
+		WGWait(8, &wg)
+	}, NewAscOrder())
+	if !rs.Run(5 * time.Second) {
+		t.Fatal("stalled")
+	}
+	_, _, _, dl, _, _ := rs.Stats()
+	if dl || len(out) != 3 {
+		t.Fatal("deadlock", dl, out)
+	}
+}
+
+// A fresh mutex and WaitGroup per loop iteration, thousands of iterations: the tables of
+// simulated primitives must reuse the slots of primitives that are back in their neutral
+// state instead of overflowing.
+func TestRSchedPrimitiveSlotsAreReused(t *testing.T) {
+	Active = true
+	defer func() { Active = false }()
+	rs := NewRSched(NewRand(5))
+	sum := make([]int, 2)
+	for k := 0; k < 2; k++ {
+		k := k
+		rs.AddTask(func() {
+			for it := 0; it < 6000; it++ {
+				var wg sync.WaitGroup
+				var mu sync.Mutex
+				MutexLock(1, &mu)
+				for i := 0; i < 2; i++ {
+					WGAdd(2, &wg, 1)
+					Go(3, func() {
+						defer WGDone(4, &wg)
+						MutexLock(5, &mu)
+						sum[k]++
+						MutexUnlock(6, &mu)
+					})
+				}
+				MutexUnlock(7, &mu)
+				WGWait(8, &wg)
+			}
+		}, NewAscOrder())
+	}
+	for i := 0; i < 40; i++ {
+		rs.PreemptGlobalAt(i * 997)
+	}
+	if !rs.Run(60 * time.Second) {
+		t.Fatal("stalled")
+	}
+	_, _, _, dl, ovf, _ := rs.Stats()
+	if dl || sum[0] != 12000 || sum[1] != 12000 {
+		t.Fatal("deadlock or lost update", dl, sum)
+	}
+	_ = ovf // more than 4096 tasks in total: later ones run inline, which is fine here
 }
